@@ -70,10 +70,28 @@ def set_array_name_format(value):
     _array_name_format = value
 
 
-_any_dtype = object()
+class _Sentinel:
+    """A module-level singleton that is compared by identity.
 
-_anonymous_dim = object()
-_anonymous_variadic_dim = object()
+    Unlike a bare `object()` it pickles by reference (to the module-level name), so
+    that annotation classes which get serialised by value -- e.g. by `cloudpickle` --
+    still refer to the very same sentinels after loading.
+    """
+
+    def __init__(self, name: str):
+        self._name = name
+
+    def __repr__(self):
+        return self._name
+
+    def __reduce__(self):
+        return self._name
+
+
+_any_dtype = _Sentinel("_any_dtype")
+
+_anonymous_dim = _Sentinel("_anonymous_dim")
+_anonymous_variadic_dim = _Sentinel("_anonymous_variadic_dim")
 
 
 class _DimType(enum.Enum):
